@@ -260,7 +260,18 @@ func (r *renderer) module() string {
 		r.line(1, "}")
 	}
 	for _, d := range m.Deviations {
-		r.line(1, "deviation %s {", q(r.path(d.Target)))
+		dp := r.path(d.Target)
+		if d.BadPrefix > 0 {
+			if steps := strings.Split(dp, "/"); d.BadPrefix+1 < len(steps) {
+				st := steps[d.BadPrefix+1]
+				if i := strings.Index(st, ":"); i >= 0 {
+					st = st[i+1:]
+				}
+				steps[d.BadPrefix+1] = "undeclared-prefix:" + st
+				dp = strings.Join(steps, "/")
+			}
+		}
+		r.line(1, "deviation %s {", q(dp))
 		for _, dv := range d.Deviates {
 			r.deviate(2, dv)
 		}
